@@ -176,6 +176,10 @@ UNITS += [
 ]
 
 KANI = []
+# restore reads several blobs of one pack with ONE ranged read (PackInfo::coalesce over BlobLocations): the units live in
+# C02's spec (BlobLocations is shared with prune/copy) and are verified as part of this property's check as well
+SATELLITES = [("C02", ["blob_constants", "BlobLocation", "BlobLocations", "from_blob_location", "can_coalesce", "append", "coalesce", "PackToDo", "RepackReason", "PackInfo", "PrunePack", "CopyPackBlobs", "RestorePackInfo", "restore_packinfo_coalesce"])]
+
 META = {"not_covered": [
     "FileArchiver::backup_reader (iterator adapters with capturing closures), Archiver::archive (threads/channels), TreeArchiver::finalize (`mut self`)",
     "Tree::serialize (serde_json) and the node metadata / name escaping (strings, serde): uninterpreted",
